@@ -3,6 +3,9 @@
 Inputs: {"schemas": [[name, node], ...] (declaration order), "max_depth": int|None}
 node := ["ref",n] | ["obj",[[key,node]..],[required..]] | ["arr",node] | ["oneof",[node..]] | ["anyof",[node..]]
       | ["allof",[node..]] | ["prim",k] | ["enum"] | ["map",node]
+      | ["bare",[required..],variant]   only as an allOf member: variant "required" = {required:[..]} (no type, no
+        properties), "typed" = {type:object, required:[..]}, "empty" = {}, "description" = {description:".."};
+        the parser builds the same IR for it as for an object without properties, so the Coq printer maps it to Obj [] req
 """
 from __future__ import annotations
 
@@ -51,7 +54,38 @@ def to_json(nd: list) -> dict:
         return {"type": "string", "enum": ["a", "b"]}
     if k == "map":
         return {"type": "object", "additionalProperties": to_json(nd[1])}
+    if k == "bare":
+        v = nd[2]
+        if v == "required":
+            return {"required": list(nd[1])}
+        if v == "typed":
+            return {"type": "object", "required": list(nd[1])}
+        if v == "description":
+            return {"description": "tightening branch"}
+        return {}
     raise ValueError(k)
+
+
+def bare_req(nd: list) -> list:
+    return list(nd[1]) if nd[2] in ("required", "typed") else []
+
+
+def bare_misplaced(schemas: list) -> bool:
+    """a "bare" node anywhere but directly inside allOf (the model identifies it with Obj [] req only there)"""
+    def walk(nd, under_allof):
+        k = nd[0]
+        if k == "bare":
+            return not under_allof
+        if k == "obj":
+            return any(walk(b, False) for _, b in nd[1])
+        if k in ("arr", "map"):
+            return walk(nd[1], False)
+        if k in ("oneof", "anyof"):
+            return any(walk(x, False) for x in nd[1])
+        if k == "allof":
+            return any(walk(x, True) for x in nd[1])
+        return False
+    return any(walk(nd, False) for _, nd in schemas)
 
 
 def doc(schemas: list) -> dict:
@@ -133,6 +167,8 @@ def in_domain(inp: dict) -> bool:
     if any(nd[0] == "ref" for _, nd in inp["schemas"]):
         return False  # top-level alias: RuntimeError "was not parsed" (F08c, owned by C08); oracle still runs
     if anonymous_complex_array(inp["schemas"]):
+        return False
+    if bare_misplaced(inp["schemas"]):
         return False
     return True
 
@@ -223,6 +259,8 @@ def decl_fields(spec: dict, nd: list, seen: tuple = ()) -> tuple[dict, set]:
     k = nd[0]
     if k == "obj":
         return {a: b for a, b in nd[1]}, set(nd[2])
+    if k == "bare":          # a branch without properties still contributes its `required` list
+        return {}, set(bare_req(nd))
     if k == "ref":
         if nd[1] in seen:
             raise _Cyclic()
@@ -304,7 +342,7 @@ def oracle(inp: dict, obs: Any, schemas: dict | None) -> list[str]:
                 if r:
                     return r
             return None
-        if k in ("obj", "allof"):
+        if k in ("obj", "allof", "bare"):
             if q.type != "object":
                 return f"{where}: want object, got {q.type}"
             return fields_ok(nd, q, where, depth + 1)
@@ -443,6 +481,8 @@ def c_node(nd: list) -> str:
         return "EnumN"
     if k == "map":
         return f"(MapN {c_node(nd[1])})"
+    if k == "bare":
+        return f"(Obj [] {clist(cstr(r) for r in bare_req(nd))})"
     raise ValueError(k)
 
 
@@ -521,8 +561,8 @@ def graph_spec(names: list, edges: list, order: tuple) -> dict:
     """edges: (i, j, kind).  Schema i = object with one property per non-allOf edge, wrapped in allOf for parent edges."""
     schemas = {}
     for i, n in enumerate(names):
-        props, req, parents = [["ident", ["prim", "integer"]]], ["ident"], []
-        used = {"ident"}
+        props, req, parents = [["ident", ["prim", "integer"]], ["label", ["prim", "string"]]], ["ident"], []
+        used = {"ident", "label"}
         for (a, b, kind) in edges:
             if a != i:
                 continue
@@ -537,7 +577,15 @@ def graph_spec(names: list, edges: list, order: tuple) -> dict:
                 used.add(key)
                 props.append([key, edge_prop(kind, names[b])])
         own = ["obj", props, req]
-        schemas[n] = ["allof", parents + [own]] if parents else own
+        if parents:
+            # the usual tightening idiom: a branch without properties that makes an inherited property required
+            variant = ("required", "typed", "required")[(i + len(edges)) % 3]
+            tight = ["bare", ["label"], variant]
+            members = parents + [own]
+            members.insert((i + len(parents)) % (len(members) + 1), tight)
+            schemas[n] = ["allof", members]
+        else:
+            schemas[n] = own
     return {"schemas": [[names[i], schemas[names[i]]] for i in order]}
 
 
@@ -636,6 +684,70 @@ def gen_core(rng, nmax=7, acyclic=True) -> dict:
     return {"schemas": out}
 
 
+def tighten(inp: dict, rng) -> dict:
+    """post-pass over a generated document: give allOf nodes branches of every shape ({required only}, {type+required},
+    {}, {description}, object with properties whose `required` also names INHERITED properties), in random positions"""
+    spec = {n: nd for n, nd in inp["schemas"]}
+
+    def visit(nd):
+        k = nd[0]
+        if k == "obj":
+            for _, b in nd[1]:
+                visit(b)
+        elif k in ("arr", "map"):
+            visit(nd[1])
+        elif k in ("oneof", "anyof"):
+            for x in nd[1]:
+                visit(x)
+        elif k == "allof":
+            for x in nd[1]:
+                visit(x)
+            try:
+                inherited = sorted(decl_fields(spec, nd)[0])
+            except _Cyclic:
+                inherited = []
+            for m in nd[1]:
+                if m[0] == "obj" and inherited and rng.random() < .5:
+                    m[2] = sorted(set(m[2]) | set(rng.sample(inherited, rng.randint(1, min(2, len(inherited))))))
+            for _ in range(rng.choice([0, 1, 1, 2])):
+                variant = rng.choice(["required", "required", "typed", "empty", "description"])
+                req = rng.sample(inherited, rng.randint(1, min(2, len(inherited)))) if inherited else []
+                nd[1].insert(rng.randint(0, len(nd[1])), ["bare", req, variant])
+    for _, nd in inp["schemas"]:
+        visit(nd)
+    return inp
+
+
+def allof_shape_cases() -> list[dict]:
+    """Leaf -> StrictBase -> Base with every shape of allOf branch in every position, all declaration orders of the three"""
+    account = ["Account", ["obj", [["name", ["prim", "string"]]], []]]
+    base = ["Base", ["obj", [["ident", ["prim", "integer"]], ["label", ["prim", "string"]], ["owner", ["ref", "Account"]]], ["ident"]]]
+    shapes = [
+        ["bare", ["label", "owner"], "required"],                      # required only
+        ["bare", ["label"], "typed"],                                  # type object + required, no properties
+        ["bare", [], "empty"],                                         # {}
+        ["bare", [], "description"],                                   # description only
+        ["obj", [["note", ["prim", "string"]]], []],                   # properties only
+        ["obj", [["note", ["prim", "string"]]], ["note", "owner"]],    # both, required names own + inherited
+        ["obj", [], ["label"]],                                        # object with empty properties + required
+    ]
+    out = []
+    for i, sh in enumerate(shapes):
+        for j, sh2 in enumerate(shapes):
+            for pos in range(2):
+                strict = [["ref", "Base"]]
+                strict.insert(pos, json.loads(json.dumps(sh)))
+                leaf = [["ref", "StrictBase"]]
+                leaf.insert((pos + j) % 2, json.loads(json.dumps(sh2)))
+                if sh2[0] == "obj" and sh[0] == "obj" and sh[1] and sh2[1]:
+                    leaf[(pos + j) % 2][1] = [["memo", ["prim", "string"]]]
+                    leaf[(pos + j) % 2][2] = [k if k != "note" else "memo" for k in leaf[(pos + j) % 2][2]]
+                sch = [account, base, ["StrictBase", ["allof", strict]], ["Leaf", ["allof", leaf]]]
+                order = list(itertools.permutations(range(4)))[(7 * i + 3 * j + pos) % 24]
+                out.append({"schemas": [json.loads(json.dumps(sch[k])) for k in order]})
+    return out
+
+
 def gen_malformed(rng) -> dict:
     """outside the model's name domain / shape domain: oracle only"""
     weird = ["A", "AB", "userGroup", "user_group", "Next", "S1a", "Üser"]
@@ -696,10 +808,12 @@ def build_inputs(chk: Check) -> list[dict]:
             graphs.append((ns, edges, tuple(rng.sample(range(3), 3))))
     inputs += [graph_spec(*g) for g in graphs]
     n = 2500 if chk.thorough else 260
-    inputs += [gen_spec(rng, 7) for _ in range(n)]
-    inputs += [gen_spec(rng, 7, acyclic=True) for _ in range(n // 3)]
-    inputs += [gen_core(rng, 7, acyclic=True) for _ in range(n // 3)]
-    inputs += [gen_core(rng, 5, acyclic=False) for _ in range(n // 6)]
+    shapes = allof_shape_cases()
+    inputs += shapes if chk.thorough else rng.sample(shapes, 40)
+    inputs += [tighten(gen_spec(rng, 7), rng) if i % 2 else gen_spec(rng, 7) for i in range(n)]
+    inputs += [tighten(gen_spec(rng, 7, acyclic=True), rng) for _ in range(n // 3)]
+    inputs += [tighten(gen_core(rng, 7, acyclic=True), rng) for _ in range(n // 3)]
+    inputs += [tighten(gen_core(rng, 5, acyclic=False), rng) for _ in range(n // 6)]
     inputs += [chain(6, 3), chain(8, 150), chain(5, 4), chain(30, 150)]
     inputs += [gen_malformed(rng) for _ in range(n // 6)]
     return inputs
@@ -865,7 +979,7 @@ def in_theorem_fragment(inp: dict) -> bool:
         return x[0] == "obj" and all(prop(b) for _, b in x[1])
 
     def top(x):
-        return (obj(x) or (x[0] == "allof" and all(m[0] == "ref" or obj(m) for m in x[1]))
+        return (obj(x) or (x[0] == "allof" and all(m[0] in ("ref", "bare") or obj(m) for m in x[1]))
                 or x[0] in ("prim", "enum") or (x[0] == "arr" and item(x[1])))
     names, keys = all_names(inp["schemas"])
     if not all(top(nd) for nd in spec.values()) or keys & set(spec) or not names <= set(spec):
